@@ -381,8 +381,9 @@ class ArrayQuantity(GenericQuantity, np.ndarray):
                 (value, datum_units) = cls._unpack_qty(datum)
                 if not use_units and datum_units:
                     use_units = datum_units
-                if(use_units and datum_units and use_units != datum_units
-                        and value != 0 and not units):
+                want_units = units or use_units
+                if(want_units and datum_units and want_units != datum_units
+                        and value != 0):
                     raise UnitsError(
                         'Inconsistent units in contents provided to '
                         'ArrayQuantity initializer')
